@@ -673,8 +673,16 @@ Theorem layer_dir_name_ok base dir n : (exists pre, dir = pre ++ [Normal n]) ->
 Proof.
   intros [pre ->]. unfold layer_dir_name, file_name, join. rewrite app_assoc, rev_app_distr. reflexivity.
 Qed.
-Theorem layer_dir_name_refuted : exists base dir, layer_dir_name base dir = Panic SITE_UNWRAP.
-Proof. exists [Normal 1], [ParentDir]. reflexivity. Qed.
+(** Layer::load_impl's [file_name().unwrap()] is unreachable behind the plain-name test of
+    LayerContents::load, for every base directory and every directory entry *)
+Theorem load_layer_dir_no_panic base dir site : load_layer_dir base dir <> Panic site.
+Proof.
+  unfold load_layer_dir, plain_name. destruct dir as [|[n| | |] [|c r]]; try discriminate.
+  rewrite (layer_dir_name_ok base [Normal n] n) by (exists []; reflexivity). discriminate.
+Qed.
+(** without the test the unwrap is reachable (kept as the reason the guard exists) *)
+Example layer_dir_name_guard_needed : layer_dir_name [Normal 1] [ParentDir] = Panic SITE_UNWRAP.
+Proof. reflexivity. Qed.
 
 Lemma strip_prefix_app root : forall rest, strip_prefix root (root ++ rest) = Some rest.
 Proof.
@@ -852,21 +860,23 @@ Section Q.
 End Q.
 
 (* ========================================================================================== *)
-(** Image: the constructor does not look at the encoding of the file name *)
-Theorem image_non_utf8_refuted : exists p, image_new p = Ok p /\ image_to_event p = Panic SITE_UNWRAP.
+(** Image: the only constructor rejects a file name that is not valid Unicode, so to_event's
+    [to_str().expect] cannot fail on any [Image] value *)
+Theorem image_new_to_event_ok p q site : image_new p = Ok q -> image_to_event q <> Panic site.
 Proof.
-  exists {| os_utf8 := false; os_empty := false; os_absolute := false; os_has_parent := false |}.
-  split; reflexivity.
+  unfold image_new, image_to_event. destruct (os_empty p); [discriminate|].
+  destruct (os_absolute p); [discriminate|]. destruct (os_has_parent p); [discriminate|].
+  destruct (os_utf8 p) eqn:E; cbn [negb]; [|discriminate].
+  intros H. assert (p = q) by congruence. subst. rewrite E. discriminate.
 Qed.
-Theorem image_utf8_ok p site : os_utf8 p = true -> image_to_event p <> Panic site.
-Proof. unfold image_to_event. intros ->. discriminate. Qed.
+Example image_new_rejects_non_utf8 :
+  image_new {| os_utf8 := false; os_empty := false; os_absolute := false; os_has_parent := false |} = Err PathNotUnicode.
+Proof. reflexivity. Qed.
 
 Definition C03_full_stmt : Prop :=
   (forall name_ok fresh ops s site, lc_inv s -> lrun name_ok fresh s ops <> Panic site) /\
-  (forall name_ok ops s site, lay_inv s -> bind (grun name_ok s ops) lay_save <> Panic site) /\
-  (forall base dir site, layer_dir_name base dir <> Panic site) /\
-  (forall p site, image_new p = Ok p -> image_to_event p <> Panic site).
+  (forall name_ok ops s site, lay_inv s -> bind (grun name_ok s ops) lay_save <> Panic site).
 Theorem C03_full_refuted : ~ C03_full_stmt.
 Proof.
-  intros [_ [_ [H _]]]. destruct layer_dir_name_refuted as [b [d E]]. exact (H b d _ E).
+  intros [H _]. destruct lrun_assign_refuted as [ops E]. exact (H _ _ ops lc_default _ lc_default_inv E).
 Qed.
